@@ -9,10 +9,12 @@
 import Rivia.Model.MemfsOps
 import Rivia.Spec.MemfsJudge
 import Rivia.Lemmas.Symlink
+import Rivia.Lemmas.MoveLinkRel
 import Rivia.Props.C16
 
 namespace Rivia.Props
 open Rivia Rivia.Memfs Rivia.Spec Rivia.Lemmas
+open Rivia.Lemmas.MoveLinkRel (LinkRelAt LinkRelOk)
 
 /-- every name in every key and in `s.cwd` is non-empty, has no `/`, is not `.` or `..`
     (`Lemmas.Wf` is the lemma-level copy of `WfName`) -/
@@ -321,6 +323,101 @@ theorem C10_chmod_chown_nofollow_never_touch_target (env : Env) (s : State) (l :
   have h1 := C10_chmod_nofollow_changes_nothing env s l cm lk e ha he hl hcm
   have h2 := C10_chown_nofollow_acts_on_link env s l co lk e hinv ha he hl hco
   refine ⟨by rw [h1], h2.2.1 tk hne, by rw [h1], by rw [h2.1]⟩
+
+
+/-! ### 9. `move_p` keeps links consistent (after the repair of `moved_link_rel_stale`)
+
+  `LinkRelOk s` : every stored link entry `(k, e)` has `e.rel = relative(e.alt, dir k)` — the `link`
+  clause of `RefineA.EntriesOk`, in the form of the consistency monitor `moved_link_rel_stale` of
+  `Spec.classOf`.  Before the repair `move_p` stored `{ e with path := dst }` (old `rel`) at the new
+  key and broke the clause; now it stores `movedEntry e dst` (`rel` recomputed against `dir dst`). -/
+
+/-- (labelled: restates the definition of the repaired loop body) the entry the loop of `move_p`
+    stores at the new key `dst` satisfies the link clause there, whatever `rel` it carried before;
+    it differs from the old entry in `path` and `rel` only -/
+theorem C10_moved_entry_consistent (e : Entry) (dst : FsPath) :
+    LinkRelAt dst (movedEntry e dst) ∧
+    movedEntry e dst = { e with path := dst, rel := movedRel e dst } ∧
+    (e.link = false → movedEntry e dst = { e with path := dst }) ∧
+    (e.link = true → (movedEntry e dst).rel = relative (renderP (e.alt.getD [])) (renderP dst.dropLast)) := by
+  refine ⟨MoveLinkRel.linkRelAt_moved e dst, rfl, ?_, ?_⟩
+  · intro hl; simp [movedEntry, movedRel, hl]
+  · intro hl; simp [movedEntry, movedRel, hl]
+
+/-- **`move_p` preserves the link-consistency clause** — for every state (no invariant needed),
+    every pair of path arguments and every outcome (`Ok`, any error — a failing call keeps what it
+    mutated —, even fuel exhaustion): if all link entries were consistent before the call, all link
+    entries (moved or not) are consistent after it -/
+theorem C10_move_preserves_link_rel (env : Env) (s : State) (a b : Str) (h : LinkRelOk s) :
+    LinkRelOk (step env s (.moveP a b)).2 :=
+  MoveLinkRel.step_moveP_linkRelOk env a b s h
+
+/-- the same for the whole per-entry invariant `RefineA.EntriesOk` of C01 (flags, type bits of the
+    mode, link clause with an existing target): `move_p` now preserves it, like every group-A op -/
+theorem C10_move_preserves_entriesOk (env : Env) (s : State) (a b : Str)
+    (h : Lemmas.RefineA.EntriesOk s) : Lemmas.RefineA.EntriesOk (step env s (.moveP a b)).2 :=
+  MoveLinkRel.step_moveP_entriesOk env a b s h
+
+/-- `EntriesOk` (which holds in `Memfs.init` and is preserved by the group-A operations, C01A)
+    implies `LinkRelOk`, and on a `LinkRelOk` state the monitor `moved_link_rel_stale` is silent -/
+theorem C10_link_rel_monitor_silent (env : Env) (s : State) (p : Str) :
+    (Lemmas.RefineA.EntriesOk s → LinkRelOk s) ∧
+    (LinkRelOk s → classOf s env (.readlink p) = "-") :=
+  ⟨MoveLinkRel.linkRelOk_of_entriesOk, fun h => MoveLinkRel.classOf_readlink_silent h env p⟩
+
+/-- after ANY `move_p` call from a consistent state, for EVERY link `p` of the new state:
+    `readlink(p)` is `relative(readlink_abs(p), dir(p))`; and when the names involved are ordinary
+    components, `dir(p)/readlink(p)` cleans to `readlink_abs(p)` -/
+theorem C10_readlink_consistent_after_move (env : Env) (s : State) (a b p : Str) (k tk : FsPath)
+    (e : Entry) (h : LinkRelOk s)
+    (ha : absM env p (step env s (.moveP a b)).2 = (.ok k, (step env s (.moveP a b)).2))
+    (he : alLookup k (step env s (.moveP a b)).2.entries = some e) (hl : e.link = true)
+    (halt : e.alt = some tk) :
+    step env (step env s (.moveP a b)).2 (.readlinkAbs p) = (.ok (.path tk), (step env s (.moveP a b)).2) ∧
+    step env (step env s (.moveP a b)).2 (.readlink p) =
+      (.ok (.str (relative (renderP tk) (renderP k.dropLast))), (step env s (.moveP a b)).2) ∧
+    ((∀ n ∈ k, WfName n) → (∀ n ∈ tk, WfName n) →
+      goClean (push (renderP k.dropLast) (relative (renderP tk) (renderP k.dropLast))) = renderP tk) := by
+  have hok := C10_move_preserves_link_rel env s a b h
+  generalize (step env s (.moveP a b)).2 = s' at ha he hok
+  have hrel : e.rel = relative (renderP tk) (renderP k.dropLast) := by
+    have := MoveLinkRel.linkRelOk_lookup hok he hl
+    rw [halt] at this
+    exact this
+  refine ⟨?_, ?_, fun hk ht => (C10_rel_navigates k tk hk ht).1⟩
+  · simp [step, ha, he, hl, halt]
+  · simp [step, ha, he, hl, hrel]
+
+/-- positive example (replaces the former counterexample of the finding): `mkdir -p /a /b/c`,
+    `symlink /a/l -> ../x` (dangling), `move_p /a/l /b/c`.  Before the call `readlink` is `../x`;
+    after it `readlink /b/c/l` is `../../x` and `readlink_abs` is still `/x`; the state is
+    consistent and the monitor is silent.  (The unrepaired loop left `../x`, which from `/b/c`
+    names `/b/x`.) -/
+theorem C10_move_link_example :
+    (let env : Env := fun _ => none
+     let s1 := (step env Memfs.init (.mkdirP "/a".toList)).2
+     let s2 := (step env s1 (.mkdirP "/b/c".toList)).2
+     let s3 := (step env s2 (.symlink "/a/l".toList "../x".toList)).2
+     let s4 := (step env s3 (.moveP "/a/l".toList "/b/c".toList)).2
+     (step env s3 (.readlink "/a/l".toList)).1 = .ok (.str "../x".toList) ∧
+     (step env s3 (.moveP "/a/l".toList "/b/c".toList)).1 = .ok .unit ∧
+     (step env s4 (.readlink "/b/c/l".toList)).1 = .ok (.str "../../x".toList) ∧
+     (step env s4 (.readlinkAbs "/b/c/l".toList)).1 = .ok (.path ["x".toList]) ∧
+     (step env s4 (Op.exists "/a/l".toList)).1 = .ok (.bool false) ∧
+     LinkRelOk s3 ∧ LinkRelOk s4 ∧ Spec.Inv s4 ∧
+     classOf s4 env (.readlink "/b/c/l".toList) = "-") := by
+  decide +kernel
+
+/-- regression witness: the entry the UNREPAIRED loop stored (`{ e with path := dst }`, `rel`
+    untouched) violates the clause for the link of the example — so the preservation theorems
+    above do distinguish the repaired model from the old one -/
+theorem C10_old_move_entry_stale :
+    (let e : Entry := { mkFileEntry ["a".toList, "l".toList] with
+        link := true, mode := 0o120777, alt := some ["x".toList], rel := "../x".toList }
+     let dst : FsPath := ["b".toList, "c".toList, "l".toList]
+     LinkRelAt ["a".toList, "l".toList] e ∧ ¬ LinkRelAt dst { e with path := dst } ∧
+     LinkRelAt dst (movedEntry e dst) ∧ (movedEntry e dst).rel = "../../x".toList) := by
+  decide +kernel
 
 -- non-vacuity / sanity (tests, labelled as such): the hypotheses of the theorems above are
 -- satisfiable — smallest state with a directory `/a`, link `/a/l` with the relative, dangling
